@@ -309,6 +309,13 @@ class Export(object):
                     + f"event count to {l_min} (max {l_max}) in '{l_min}'.",
                     LimitingExportSizeWarning)
 
+        # The event count of the source does not apply to the output file
+        # (the writer only corrects it if any events are written).
+        if filter_arr is None:
+            meta["experiment"]["event count"] = len(ds)
+        else:
+            meta["experiment"]["event count"] = int(np.sum(filter_arr))
+
         # Perform actual export
         with RTDCWriter(path,
                         mode="append",
